@@ -2,37 +2,154 @@
    Model/FixLoop.v (applyLinterFixes) with the linter, the formatter fixes and the rename as oracles,
    and about the text measures of Proofs/Fixes.v. *)
 From Coq Require Import String.
-From Regal Require Import Base.StrLit Model.FixLoop Proofs.Fixes Proofs.FixLoop.
+From Regal Require Import Base.StrLit Model.Rename.
+From Regal Require Import Model.FixLoop Proofs.Fixes Proofs.FixLoop Model.DpmAgree Proofs.DpmAgree Proofs.FixLoopRename.
 Local Open Scope nat_scope.
 
 (* ---- termination: under the progress hypothesis (an iteration that fixes something decreases the
-        measure) the loop ends within [mu files + 1] iterations, for every linter, formatter, rename ---- *)
+        measure) the loop ends within [mu files + 1] iterations, for every linter and formatter, in both
+        conflict modes: in rename mode for every candidate function whose sequence
+          cand_iter candidate k to  =  to, candidate to, candidate (candidate to), ...
+        never repeats a name for the targets the moving fix asks for, with |files| + 1 candidate rounds
+        of fuel per rename ([OutOfFuel] is also what a candidate loop cut short returns) ---- *)
 Theorem c12_loop_terminates :
   forall (lint : fs -> option (list violation)) (oracle_fix : rule -> str -> str -> fix_result)
-         (rename_on_conflict : bool) (free_name : fs -> str -> str) (mu : fs -> nat),
+         (rename_on_conflict : bool) (candidate : str -> str) (rfuel : nat) (mu : fs -> nat),
   (forall files vs files' c c',
       lint files = Some vs ->
-      pass oracle_fix rename_on_conflict free_name vs files [] false c = POk files' true c' ->
+      pass oracle_fix rename_on_conflict candidate rfuel vs files [] false c = POk files' true c' ->
       mu files' < mu files) ->
+  (forall r file content to,
+      oracle_fix r file content = FRename to ->
+      forall i j, i <> j -> FixLoop.cand_iter candidate i to <> FixLoop.cand_iter candidate j to) ->
   forall fuel files c,
-    mu files < fuel -> loop lint oracle_fix rename_on_conflict free_name fuel files c <> OutOfFuel.
+    mu files < fuel -> List.length files < rfuel ->
+    loop lint oracle_fix rename_on_conflict candidate rfuel fuel files c <> OutOfFuel.
 Proof. exact loop_terminates. Qed.
 Print Assumptions c12_loop_terminates.
+
+(* ---- rename mode (handleRename, OnConflictRename): the names tried are produced by ITERATING the
+        candidate function on the name tried last.  If that sequence never repeats a name (a strictly
+        increasing counter), the loop settles within |files| rounds on the first candidate that is free:
+          rename_loop candidate fuel files to = Some (number of conflicts, name settled on) ---- *)
+Theorem c12_rename_mode_terminates :
+  forall (candidate : str -> str) (files : fs) (to : str) (fuel : nat),
+  (forall i j, i <> j -> FixLoop.cand_iter candidate i to <> FixLoop.cand_iter candidate j to) ->
+  List.length files < fuel ->
+  exists k, k <= List.length files
+    /\ rename_loop candidate fuel files to = Some (k, FixLoop.cand_iter candidate k to)
+    /\ fs_get files (FixLoop.cand_iter candidate k to) = None
+    /\ (forall j, j < k -> fs_get files (FixLoop.cand_iter candidate j to) <> None).
+Proof. exact rename_loop_terminates. Qed.
+Print Assumptions c12_rename_mode_terminates.
+
+(* ---- with the real renameCandidate (C13's model of pkg/fixer/rename.go) and any clean absolute target
+        [to = /ds.../nb]: at most |files| conflicts, the name settled on is the first free one of
+        p.rego, p_1.rego, p_2.rego, ... and lies in the directory of the target ---- *)
+Theorem c12_rename_mode_terminates_real_candidate :
+  forall (files : fs) (to : str) (ds : list str) (nb : str) (fuel : nat),
+  clean_file to ds nb ->
+  List.length files < fuel ->
+  exists k, k <= List.length files
+    /\ rename_loop rename_candidate fuel files to = Some (k, Rename.cand_iter k to)
+    /\ fs_get files (Rename.cand_iter k to) = None
+    /\ (forall j, j < k -> fs_get files (Rename.cand_iter j to) <> None)
+    /\ dir (Rename.cand_iter k to) = cpath ds.
+Proof. exact rename_mode_terminates. Qed.
+Print Assumptions c12_rename_mode_terminates_real_candidate.
+
+(* ---- the variant that derives every candidate from the target the fix asked for
+        (to = renameCandidate(fixResult.Rename.ToPath)) does not terminate once the first alternative
+        name is taken as well: p.rego and p_1.rego held, it asks for p_1.rego for ever, where the real
+        loop settles on p_2.rego after two conflicts ---- *)
+Theorem c12_rename_mode_terminates_from_target_refuted :
+  exists files to ds nb,
+    clean_file to ds nb
+    /\ (forall fuel, rename_loop_from_target rename_candidate fuel files to to = None)
+    /\ rename_loop rename_candidate 4 files to = Some (2, lit "/ws/foo/p_2.rego").
+Proof. exact rename_from_target_refuted. Qed.
+Print Assumptions c12_rename_mode_terminates_from_target_refuted.
+
+(* ... and is indistinguishable from it while the first alternative is free *)
+Theorem c12_rename_mode_from_target_partial :
+  forall files to fuel,
+  fs_get files (rename_candidate to) = None ->
+  rename_loop_from_target rename_candidate (S (S fuel)) files to to
+  = rename_loop rename_candidate (S (S fuel)) files to.
+Proof. exact rename_from_target_partial. Qed.
+Print Assumptions c12_rename_mode_from_target_partial.
+
+(* ---- directory-package-mismatch: the rule (Rego) and the fix (Go) compute the expected directory
+        independently (Model/DpmAgree.v).  For every package path (components with _test in any
+        position, quoted components, ...) and both settings of exclude-test-suffix: where the fix
+        computes a directory at all ([fix_dirs] = Some: every component matches the fix's regular
+        expression), it is the rule's list of expected directory names ---- *)
+Theorem c12_dpm_same_values :
+  forall (exclude : bool) (pkg d : list str),
+  pkg <> [] -> fix_dirs exclude pkg = Some d -> rule_pkg_values exclude pkg = Some d.
+Proof. exact dpm_same_values. Qed.
+Print Assumptions c12_dpm_same_values.
+
+(* hence the directory the fix moves a file to, below any root, is one the rule accepts: the fix
+   removes what it claims to fix *)
+Theorem c12_dpm_rule_and_fix_agree :
+  forall (exclude : bool) (pkg d root : list str),
+  fix_dirs exclude pkg = Some d -> rule_reports exclude pkg (root ++ d) = false.
+Proof. exact dpm_rule_and_fix_agree. Qed.
+Print Assumptions c12_dpm_rule_and_fix_agree.
+
+(* and the rule is silent exactly for the files whose last directories are the ones the fix computes *)
+Theorem c12_dpm_rule_silent_iff :
+  forall (exclude : bool) (pkg d dirs : list str),
+  pkg <> [] -> fix_dirs exclude pkg = Some d ->
+  (rule_reports exclude pkg dirs = false <-> last_n (List.length d) dirs = d).
+Proof. exact dpm_rule_silent_iff. Qed.
+Print Assumptions c12_dpm_rule_silent_iff.
+
+(* in terms of what DirectoryPackageMismatch.Fix answers for a file with directories [dirs] *)
+Theorem c12_dpm_fix_answer_sound :
+  forall (exclude : bool) (pkg root dirs : list str),
+  match fix_answer_of exclude pkg root dirs with
+  | FixInPlace => rule_reports exclude pkg dirs = false
+  | FixMoveTo dirs' => rule_reports exclude pkg dirs' = false /\ dirs' <> dirs
+  | FixRefuses => fix_dirs exclude pkg = None
+  end.
+Proof. exact dpm_fix_answer_sound. Qed.
+Print Assumptions c12_dpm_fix_answer_sound.
+
+(* the variant that trims _test from EVERY component (seed C12-4) moves  package authz_test.helpers  to
+   authz/helpers, where the rule still reports it and the fix finds nothing more to do *)
+Theorem c12_dpm_rule_and_fix_agree_trim_every_refuted :
+  exists pkg d root,
+    fix_dirs_every true pkg = Some d /\ rule_reports true pkg (root ++ d) = true
+    /\ fix_answer_with trim_every true pkg root (root ++ d) = FixInPlace.
+Proof. exact dpm_trim_every_refuted. Qed.
+Print Assumptions c12_dpm_rule_and_fix_agree_trim_every_refuted.
+
+(* the rule before repair 4b6422e kept the empty name left of a last component "_test": for
+   package p._test the fix finds the file in place in p/, the rule reports it, and no directory without
+   an empty name could ever satisfy the rule *)
+Theorem c12_dpm_rule_and_fix_agree_pinned_refuted :
+  exists pkg root dirs,
+    fix_answer_of true pkg root dirs = FixInPlace /\ rule_reports_pinned true pkg dirs = true
+    /\ forall dirs', rule_reports_pinned true pkg dirs' = false -> In [] dirs'.
+Proof. exact dpm_rule_pinned_refuted. Qed.
+Print Assumptions c12_dpm_rule_and_fix_agree_pinned_refuted.
 
 (* ---- post-condition: the returned files are the ones linted last, and every violation still reported
         for them is one its fix declines: nothing fixable remains ---- *)
 Theorem c12_loop_postcondition :
-  forall lint oracle_fix rename_on_conflict free_name fuel files c files' c',
-  loop lint oracle_fix rename_on_conflict free_name fuel files c = Done files' c' ->
+  forall lint oracle_fix rename_on_conflict candidate rfuel fuel files c files' c',
+  loop lint oracle_fix rename_on_conflict candidate rfuel fuel files c = Done files' c' ->
   exists vs, lint files' = Some vs /\ Forall (declined oracle_fix files') vs.
 Proof. exact loop_postcondition. Qed.
 Print Assumptions c12_loop_postcondition.
 
 (* ---- idempotence: fixing the result again changes nothing ---- *)
 Theorem c12_loop_idempotent :
-  forall lint oracle_fix rename_on_conflict free_name fuel files c files' c',
-  loop lint oracle_fix rename_on_conflict free_name fuel files c = Done files' c' ->
-  forall fuel2 c2, loop lint oracle_fix rename_on_conflict free_name (S fuel2) files' c2 = Done files' c2.
+  forall lint oracle_fix rename_on_conflict candidate rfuel fuel files c files' c',
+  loop lint oracle_fix rename_on_conflict candidate rfuel fuel files c = Done files' c' ->
+  forall fuel2 c2, loop lint oracle_fix rename_on_conflict candidate rfuel (S fuel2) files' c2 = Done files' c2.
 Proof. exact loop_idempotent. Qed.
 Print Assumptions c12_loop_idempotent.
 
@@ -57,18 +174,18 @@ Print Assumptions c12_nrr_progress.
 (* ---- hence: with only use-assignment-operator (or only non-raw-regex-pattern) enabled, fixing terminates
         whatever the linter reports, within (number of lone '=' / of double quotes) + 1 iterations ---- *)
 Theorem c12_uao_only_terminates :
-  forall lint oracle_fix rename_on_conflict free_name,
+  forall lint oracle_fix rename_on_conflict candidate rfuel,
   (forall files vs, lint files = Some vs -> Forall (fun v => v_rule v = RUao) vs) ->
   forall files c,
-    loop lint oracle_fix rename_on_conflict free_name (S (mu_sum (lone_cnt NL) files)) files c <> OutOfFuel.
+    loop lint oracle_fix rename_on_conflict candidate rfuel (S (mu_sum (lone_cnt NL) files)) files c <> OutOfFuel.
 Proof. exact uao_only_terminates. Qed.
 Print Assumptions c12_uao_only_terminates.
 
 Theorem c12_nrr_only_terminates :
-  forall lint oracle_fix rename_on_conflict free_name,
+  forall lint oracle_fix rename_on_conflict candidate rfuel,
   (forall files vs, lint files = Some vs -> Forall (fun v => v_rule v = RNrr) vs) ->
   forall files c,
-    loop lint oracle_fix rename_on_conflict free_name (S (mu_sum (count_byte DQ) files)) files c <> OutOfFuel.
+    loop lint oracle_fix rename_on_conflict candidate rfuel (S (mu_sum (count_byte DQ) files)) files c <> OutOfFuel.
 Proof. exact nrr_only_terminates. Qed.
 Print Assumptions c12_nrr_only_terminates.
 
@@ -80,10 +197,10 @@ Print Assumptions c12_nrr_only_terminates.
              (v_rule v = RNwc -> forall c0, fs_get files (v_file v) = Some c0 -> nwc_reported c0 (v_loc v))
           text_measure c  :=  count_byte DQ c + lone_cnt NL c + tight_hash_count c ---- *)
 Theorem c12_text_rules_terminate :
-  forall lint oracle_fix rename_on_conflict free_name,
+  forall lint oracle_fix rename_on_conflict candidate rfuel,
   (forall files vs, lint files = Some vs -> Forall (good_viol files) vs) ->
   forall files c,
-    loop lint oracle_fix rename_on_conflict free_name (S (mu_sum text_measure files)) files c <> OutOfFuel.
+    loop lint oracle_fix rename_on_conflict candidate rfuel (S (mu_sum text_measure files)) files c <> OutOfFuel.
 Proof. exact text_rules_terminate. Qed.
 Print Assumptions c12_text_rules_terminate.
 
@@ -102,10 +219,10 @@ Definition toy_lint (files : fs) : option (list violation) :=
   Some (flat_map (fun pc : str * str =>
                     if lone_eq (snd pc) 2 then [{| v_rule := RUao; v_file := fst pc; v_loc := {| l_row := 1; l_col := 3 |} |}]
                     else []) files).
-Definition toy_oracle (_ : rule) (_ _ : str) : fix_result := FNone.
+Definition toy_oracle (_ : rule) (_ _ : str) : FixLoop.fix_result := FNone.
 
 Example c12_ex_loop :
-  loop toy_lint toy_oracle false (fun _ p => p) 3 [(lit "p.rego", lit "x = 1"); (lit "q.rego", lit "y := 2")] false
+  loop toy_lint toy_oracle false (fun p => p) 0 3 [(lit "p.rego", lit "x = 1"); (lit "q.rego", lit "y := 2")] false
   = Done [(lit "p.rego", lit "x := 1"); (lit "q.rego", lit "y := 2")] false.
 Proof. vm_compute. reflexivity. Qed.
 
@@ -126,3 +243,49 @@ Proof.
   destruct (lone_eq (snd pc) 2); [|destruct Hv].
   destruct Hv as [<-|[]]. split; [reflexivity|]. intros Hr. discriminate Hr.
 Qed.
+
+(* ---- non-vacuity of the rename theorems: three files that all belong at /ws/foo/p.rego (seed C12-3's
+        demonstration).  A toy linter reports every file outside /ws/foo, the moving fix asks for
+        /ws/foo/<base>; in rename mode the loop ends with p.rego, p_1.rego, p_2.rego ---- *)
+Definition in_foo (p : str) : bool := has_prefix p (lit "/ws/foo/").
+Definition mv_lint (files : fs) : option (list violation) :=
+  Some (flat_map (fun pc : str * str =>
+                    if in_foo (fst pc) then []
+                    else [{| v_rule := RDpm; v_file := fst pc; v_loc := {| l_row := 1; l_col := 9 |} |}]) files).
+Definition mv_oracle (r : rule) (file _ : str) : FixLoop.fix_result :=
+  match r with RDpm => FRename (lit "/ws/foo/" ++ path_base file) | _ => FNone end.
+Definition three_way : fs :=
+  [(lit "/ws/a/p.rego", lit "A"); (lit "/ws/b/p.rego", lit "B"); (lit "/ws/c/p.rego", lit "C")].
+
+Example c12_ex_three_way_collision :
+  loop mv_lint mv_oracle true rename_candidate 4 5 three_way false
+  = Done [(lit "/ws/foo/p.rego", lit "A"); (lit "/ws/foo/p_1.rego", lit "B"); (lit "/ws/foo/p_2.rego", lit "C")] false
+  /\ loop mv_lint mv_oracle false rename_candidate 4 5 three_way false
+  = Done [(lit "/ws/foo/p.rego", lit "A")] true
+  (* a candidate loop with too little fuel is reported as such, not as a result *)
+  /\ loop mv_lint mv_oracle true rename_candidate 2 5 three_way false = OutOfFuel.
+Proof. vm_compute. repeat split. Qed.
+
+(* the hypotheses of c12_rename_mode_terminates_real_candidate and of c12_loop_terminates (no repetition)
+   are met by the target of the example *)
+Example c12_ex_clean_target :
+  clean_file (lit "/ws/foo/p.rego") [lit "ws"; lit "foo"] (lit "p.rego")
+  /\ Rename.cand_iter 2 (lit "/ws/foo/p_test.rego") = lit "/ws/foo/p_2_test.rego".
+Proof.
+  split; [|vm_compute; reflexivity].
+  split; [reflexivity|]. split; repeat constructor; try discriminate; vm_compute; intuition discriminate.
+Qed.
+
+(* directory-package-mismatch: both computations on the package paths of seed C12-4 *)
+Example c12_ex_dpm :
+  fix_dirs true [lit "authz_test"; lit "helpers"] = Some [lit "authz_test"; lit "helpers"]
+  /\ rule_pkg_values true [lit "authz_test"; lit "helpers"] = Some [lit "authz_test"; lit "helpers"]
+  /\ fix_dirs true [lit "authz"; lit "policy_test"] = Some [lit "authz"; lit "policy"]
+  /\ fix_dirs false [lit "authz"; lit "policy_test"] = Some [lit "authz"; lit "policy_test"]
+  /\ fix_dirs true [lit "p"; lit "my-pkg_test"] = Some [lit "p"; lit "my-pkg"]
+  /\ fix_dirs true [lit "p"; lit "_test"] = Some [lit "p"]
+  /\ rule_pkg_values true [lit "p"; lit "_test"] = Some [lit "p"]
+  /\ fix_dirs true [lit "p"; lit "a.b"] = None
+  /\ rule_reports true [lit "authz"; lit "policy_test"] (file_dirs (lit "/ws/authz/policy/x_test.rego")) = false
+  /\ rule_reports true [lit "authz"; lit "policy_test"] (file_dirs (lit "/ws/authz/policy_test/x_test.rego")) = true.
+Proof. vm_compute. repeat split. Qed.
